@@ -16,6 +16,10 @@ let bytes_of_string (s : string) : z list =
   let r = ref [] in
   for i = String.length s - 1 downto 0 do r := z_of_int (Char.code s.[i]) :: !r done; !r
 
+let string_of_bytes (l : z list) : string =
+  let b = Buffer.create 64 in
+  List.iter (fun c -> Buffer.add_char b (Char.chr ((int_of_z c) land 255))) l; Buffer.contents b
+
 let unhex (h : string) : string =
   if h = "-" then "" else begin
     let n = String.length h / 2 in
@@ -87,6 +91,7 @@ let () =
     | 1 -> { !cfg with fix_f7 = true; fix_f14 = true; fix_f7b = false }
     | 2 -> { !cfg with fix_f7 = false; fix_f14 = true; fix_f7b = true }
     | _ -> { !cfg with fix_f7 = true; fix_f14 = false; fix_f7b = true } in
+  let tin = ref tinit0 in
   let i = ref 0 in
   let take_env () =
     let envs = ref [] and txt = ref [] in
@@ -144,10 +149,29 @@ let () =
          sts.(k) <- s';
          if ok then [Printf.sprintf "leak %d" (int_of_z s'.lost_fds + (if s'.fd_open then 1 else 0))] else ["hang"]) in
        emit_all outs
-     | "tight" :: en :: vo :: suf :: rest ->
+     | "targs" :: pw :: args ->
+       let _ = take_env () in
+       print_endline "targs";
+       let sbp = root ^ "/sb" in
+       let arg_of h = let a = unhex h in
+         if String.length a > 0 && a.[0] = '@' then sbp ^ String.sub a 1 (String.length a - 1) else a in
+       let is_dir (p : z list) = (try Sys.is_directory (string_of_bytes p) with Sys_error _ -> false) in
+       let env = { pw_home = (match pw with "ok" -> Some (bytes_of_string sbp) | "none" -> None
+                                          | "bad" -> Some (bytes_of_string "/nonexistent-home-dir") | _ -> Some []);
+                   dir_ok = is_dir } in
+       let st = run_args env tinit0 (List.map (fun h -> bytes_of_string (arg_of h)) args) in
+       tin := st;
+       let r = string_of_bytes st.t_root in
+       let sl = String.length sbp in
+       if String.length r >= sl && String.sub r 0 sl = sbp
+       then Printf.printf "tinit enabled=%s root=@ %s\n" (b2s st.t_enabled) (hex_of_bytes (bytes_of_string (String.sub r sl (String.length r - sl))))
+       else Printf.printf "tinit enabled=%s root== %s\n" (b2s st.t_enabled) (hex_of_bytes st.t_root)
+     | "tight" :: en0 :: vo :: suf :: rest ->
        let _ = take_env () in
        print_endline "tight";
-       let ftproot = bytes_of_string (root ^ "/sb" ^ unhex suf) in
+       let keep = (en0 = "keep") in
+       let en = if keep then (if !tin.t_enabled then "1" else "0") else en0 in
+       let ftproot = if keep then !tin.t_root else bytes_of_string (root ^ "/sb" ^ unhex suf) in
        (* results of creat() recorded from the implementation run: last token "creat:<digits>" *)
        let (pairs, creats) =
          match List.rev rest with
